@@ -170,6 +170,20 @@ func Normalize(cond ssa.Value, pol bool) Rel {
 			return Rel{Op: op, X: x, Y: y}
 		}
 	}
+	// errors.Is(err, Sentinel) is read as err == Sentinel (identity is what the
+	// repository's own comparisons mean; Is additionally unwraps)
+	if call, ok := cond.(*ssa.Call); ok {
+		switch Callee(call) {
+		case "errors.Is", "github.com/friendsofgo/errors.Is":
+			if len(call.Call.Args) == 2 {
+				op := token.EQL
+				if !pol {
+					op = token.NEQ
+				}
+				return Rel{Op: op, X: call.Call.Args[0], Y: call.Call.Args[1]}
+			}
+		}
+	}
 	return Rel{Op: token.ILLEGAL, B: cond, Pol: pol}
 }
 
